@@ -4,8 +4,8 @@
 // (ASan).  These histories are outside the Coq model (its managed type holds plain data), so they are checked here by
 // the destructor log and the sanitizers only.
 //
-// usage: nested_harness <scenario>      prints "ok" or "bad: <what>"; a sanitizer report / assert aborts the process.
-// One process per scenario, because the interesting failures are use-after-free.
+// usage: nested_harness <scenario>...   prints "ok" or "bad: <what>" (with several scenarios: one "<name> ok" line each); a
+// sanitizer report / assert aborts the process, so the check re-runs the scenarios one per process when the batch fails.
 #include <cstdio>
 #include <cstdlib>
 #include <cstring>
@@ -43,8 +43,94 @@ static void expect_destroyed(std::initializer_list<int> yes, int total) {
     for (int i = 0; i < total; ++i) if (g_dtor[i] != want[i]) { expect(false, "destructor log differs from 'destroyed exactly once iff no handle is left'"); return; }
 }
 
-int main(int argc, char** argv) {
-    std::string sc = argc > 1 ? argv[1] : "";
+// ---- the assignment operators as a product: {copy, move} x {same type, converting Derived -> Base}
+//      x {source is a member of the object being released, a member of ANOTHER live object, a local handle},
+//      plus reset()-then-assign and swap with a member.  Base-class nodes BN, every object is a DN (derived); the
+//      member `next` is a CountingPtr<DN>; the assigned-to handle is a CountingPtr<DN> (same type) or a
+//      CountingPtr<BN> (converting overloads).  The oracle recomputes, from the outer handles, which nodes must be
+//      alive (reachable), their counts (outer handles + members of live nodes) and the destructor log.
+struct DN;
+static std::vector<int> g_bdtor;
+struct BN : public tlx::ReferenceCounter {
+    int id;
+    tlx::CountingPtr<DN> next;
+    BN() : id(static_cast<int>(g_bdtor.size())) { g_bdtor.push_back(0); }
+    BN(const BN&) = delete;
+    virtual ~BN() { ++g_bdtor[id]; }
+};
+struct DN : public BN {};
+using PBN = tlx::CountingPtr<BN>;
+using PDN = tlx::CountingPtr<DN>;
+static std::vector<BN*> g_nodes;      // by id (addresses stay valid to compare, never dereferenced once destroyed)
+static PDN mk() { DN* n = new DN(); g_nodes.push_back(n); return PDN(n); }
+static PDN mk_chain(int n) { PDN head = mk(); PDN cur = head; for (int i = 1; i < n; ++i) { cur->next = mk(); cur = cur->next; } return head; }
+
+static void oracle(std::initializer_list<const BN*> outer, const char* where) {
+    size_t n = g_nodes.size();
+    std::vector<char> alive(n, 0); std::vector<int> cnt(n, 0);
+    std::vector<const BN*> stack;
+    for (const BN* p : outer) if (p) { ++cnt[p->id]; if (!alive[p->id]) { alive[p->id] = 1; stack.push_back(p); } }
+    // reachability must only walk nodes that have NOT been destroyed according to the log (else we would read freed memory)
+    while (!stack.empty()) {
+        const BN* p = stack.back(); stack.pop_back();
+        if (g_bdtor[p->id] != 0) { expect(false, where); expect(false, "a node that still has a handle was destroyed"); return; }
+        const BN* q = p->next.get();
+        if (q) { ++cnt[q->id]; if (!alive[q->id]) { alive[q->id] = 1; stack.push_back(q); } }
+    }
+    for (size_t i = 0; i < n; ++i) {
+        if (alive[i]) {
+            if (g_bdtor[i] != 0) { expect(false, where); expect(false, "node with handles destroyed"); }
+            else if (static_cast<int>(g_nodes[i]->reference_count()) != cnt[i]) { expect(false, where); }
+        }
+        else if (g_bdtor[i] != 1) { expect(false, where); }
+    }
+}
+
+// kind: 'c' copy / 'm' move;  conv: target is a base-class handle;  where: 0 member of the released object,
+// 1 member of another live object, 2 local handle
+template <typename Target>
+static void assign_product(char kind, int where) {
+    Target head(mk_chain(3));                    // head -> n0 -> n1 -> n2   (head is the only owner of n0)
+    PDN keep = mk_chain(2);                      // keep -> n3 -> n4
+    PDN local = mk();                            // n5
+    oracle({head.get(), keep.get(), local.get()}, "before");
+    if (where == 0) { if (kind == 'c') head = head->next; else head = std::move(head->next); }
+    else if (where == 1) { if (kind == 'c') head = keep->next; else head = std::move(keep->next); }
+    else { if (kind == 'c') head = local; else head = std::move(local); }
+    oracle({head.get(), keep.get(), local.get()}, "after the assignment");
+    int want = where == 0 ? 1 : where == 1 ? 4 : 5;
+    expect(head && head->id == want, "assigned-to handle points to the wrong node");
+    if (kind == 'm' && where == 1) expect(!keep->next, "moved-from member not empty");
+    if (kind == 'm' && where == 2) expect(!local, "moved-from local not empty");
+    head.reset(); oracle({keep.get(), local.get()}, "after releasing the head");
+    keep.reset(); local.reset(); oracle({}, "at the end");
+}
+
+template <typename Target>
+static void reset_then_assign(char kind) {
+    Target head(mk_chain(3)); PDN keep = mk_chain(3);
+    head.reset(); oracle({keep.get()}, "after reset");
+    if (kind == 'c') head = keep->next; else head = std::move(keep->next);
+    oracle({head.get(), keep.get()}, "after assigning to the emptied handle");
+    if (kind == 'c') head = head->next; else head = std::move(head->next);         // and consume one more from its own member
+    oracle({head.get(), keep.get()}, "after consuming from the own member");
+    keep.reset(); oracle({head.get()}, "keep released");
+    head.reset(); oracle({}, "at the end");
+}
+
+static void swap_with_member() {
+    PDN head = mk_chain(2); PDN keep = mk_chain(3);          // head -> n0 -> n1 ; keep -> n2 -> n3 -> n4
+    swap(head, keep->next);                                   // head -> n3 -> n4 ; keep -> n2 -> n0 -> n1
+    oracle({head.get(), keep.get()}, "after swap with a member of another object");
+    expect(head->id == 3 && keep->next->id == 0, "swap result");
+    head.swap(keep->next->next->next);                        // the empty member of n1: head becomes empty, keep -> n2 -> n0 -> n1 -> n3 -> n4
+    oracle({head.get(), keep.get()}, "after swapping with an empty member");
+    expect(!head && keep->next->next->next->id == 3, "swap with an empty member");
+    keep.reset(); head.reset(); oracle({}, "at the end");
+}
+
+static int run_scenario(const std::string& sc) {
+    g_dtor.clear(); g_bdtor.clear(); g_nodes.clear(); g_bad.clear();
     if (sc == "pop_copy") {                // head = head->next : the source handle lives inside the object being released
         P head = make_list(3);
         head = head->next;
@@ -165,6 +251,19 @@ int main(int argc, char** argv) {
         kept.reset();
         for (size_t i = 0; i < total; ++i) expect(g_dtor[i] == 1, "each node exactly once");
     }
+    else if (sc.compare(0, 7, "assign_") == 0 && sc.size() > 9) {
+        // assign_<copy|move>_<same|conv>_<member|other|local>
+        char kind = sc.find("_copy_") != std::string::npos ? 'c' : 'm';
+        bool conv = sc.find("_conv_") != std::string::npos;
+        int where = sc.find("_member") != std::string::npos ? 0 : sc.find("_other") != std::string::npos ? 1 : 2;
+        if (conv) assign_product<PBN>(kind, where); else assign_product<PDN>(kind, where);
+    }
+    else if (sc == "pop_conv_move") assign_product<PBN>('m', 0);
+    else if (sc == "reset_assign_copy_same") reset_then_assign<PDN>('c');
+    else if (sc == "reset_assign_move_same") reset_then_assign<PDN>('m');
+    else if (sc == "reset_assign_copy_conv") reset_then_assign<PBN>('c');
+    else if (sc == "reset_assign_move_conv") reset_then_assign<PBN>('m');
+    else if (sc == "swap_member") swap_with_member();
     else if (sc == "empty_use_count") {    // not a nested-handle case: use_count() of an empty handle (std::shared_ptr: 0)
         P e;
         expect(!e.unique(), "unique() of an empty handle");
@@ -172,5 +271,15 @@ int main(int argc, char** argv) {
     }
     else { printf("bad: unknown scenario\n"); return 2; }
     printf("%s\n", g_bad.empty() ? "ok" : ("bad: " + g_bad).c_str());
+    fflush(stdout);
     return 0;
+}
+
+// one scenario: prints "ok" / "bad: ..."; several scenarios: prints "<name> ok" / "<name> bad: ..." per scenario (the
+// check runs them all in one process first and only falls back to one process per scenario when something fails)
+int main(int argc, char** argv) {
+    if (argc <= 2) return run_scenario(argc > 1 ? argv[1] : "");
+    int rc = 0;
+    for (int i = 1; i < argc; ++i) { printf("%s ", argv[i]); fflush(stdout); int r = run_scenario(argv[i]); if (r) rc = r; }
+    return rc;
 }
